@@ -697,9 +697,8 @@ def run(ctx) -> None:
     ctx.rule("C20.render", "T10: display helpers total over thresholds and table shapes", floor=12)
     ctx.rule("C20.detached", "T8: to_frame/public tables are copies; held model objects are copies", floor=7)
     ctx.rule("C20.route", "call routing of the three summary() methods", floor=3)
-    check_model_summary(ctx)
-    check_metabolite_summary(ctx)
-    check_reaction_summary(ctx)
-    check_default_solution(ctx)
-    check_detached(ctx)
-    check_route(ctx)
+    for chk in (check_model_summary, check_metabolite_summary, check_reaction_summary, check_default_solution, check_detached, check_route):
+        try:
+            chk(ctx)
+        except AnalysisError as exc:
+            ctx.defer(str(exc))
